@@ -4,6 +4,9 @@ import VlsModel.Gen.FnOnchainTx
 import VlsModel.Gen.FnTxUtilC08
 import VlsModel.Gen.FnDerive
 import VlsModel.Gen.FnNodeWallet
+import VlsModel.Gen.FnApproverC08
+import VlsModel.Gen.FnNodeOnchain
+import VlsModel.Gen.FnOnchainWrap
 import VlsModel.Lemmas.NodeWalletFn
 import VlsModel.Model.Wallet
 import VlsModel.Lemmas.FnGen
@@ -540,6 +543,534 @@ theorem C08_fn_allowlist_contains (style : Style) (allow : List Wallet.Allowable
         | .no => .ok false
         | .panic => .error .panic := allowlist_contains_eq style allow path s
 
+/-! ### Round 9: the key and address functions behind `can_spend` (same generated unit) -/
+
+/-- the outcome of a `Result<_, Status>` whose only error is `invalid_argument` -/
+def optRes {α : Type} : Option α → Rs.M α
+  | some a => .ok a
+  | none => .error (.err "invalid-argument")
+
+/-- **`Node::get_wallet_privkey` = `Wallet.walletKey?`**: the account key at the path, refused (`invalid_argument`) exactly
+    when the style prescribes a path length and the path has another one -/
+theorem C08_fn_get_wallet_privkey (style : Style) (allow : List Wallet.Allowable) (path : List Nat) :
+    Node.get_wallet_privkey (ext_get_key_path_len := Style.keyPathLen) (ext_len := List.length)
+        (ext_account_privkey_at := fun p => Key.account p) (toNode style allow) path
+      = optRes (walletKey? style path) := by
+  unfold Node.get_wallet_privkey walletKey? optRes
+  simp only [toNode]
+  cases hk : style.keyPathLen with
+  | none => simp [Rs.unwrap, bind, Except.bind, pure, Except.pure]
+  | some n =>
+    by_cases hl : path.length = n
+    · simp [hl, Rs.unwrap, bind, Except.bind, pure, Except.pure]
+    · simp [hl, Rs.unwrap, Rs.fail, bind, Except.bind, pure, Except.pure]
+
+theorem C08_fn_get_wallet_pubkey (style : Style) (allow : List Wallet.Allowable) (path : List Nat) :
+    Node.get_wallet_pubkey (ext_get_key_path_len := Style.keyPathLen) (ext_len := List.length)
+        (ext_account_privkey_at := fun p => Key.account p) (ext_pubkey_of := fun k => k) (toNode style allow) path
+      = optRes (walletKey? style path) := by
+  unfold Node.get_wallet_pubkey
+  rw [C08_fn_get_wallet_privkey]
+  cases walletKey? style path <;> rfl
+
+/-- the address of kind `k` at a wallet path: refused for the empty path and for a path of the wrong length -/
+def walletAddr (k : Kind) (style : Style) (path : List Nat) : Option Script :=
+  if path.length = 0 then none else (walletKey? style path).map (Script.addr k)
+
+theorem C08_fn_get_native_address (style : Style) (allow : List Wallet.Allowable) (path : List Nat) :
+    Node.get_native_address (ext_len := List.length) (ext_get_key_path_len := Style.keyPathLen)
+        (ext_account_privkey_at := fun p => Key.account p) (ext_pubkey_of := fun k => k)
+        (ext_addr_p2wpkh := fun k => Script.addr .p2wpkh k) (toNode style allow) path
+      = optRes (walletAddr .p2wpkh style path) := by
+  unfold Node.get_native_address walletAddr
+  rw [C08_fn_get_wallet_pubkey]
+  by_cases hp : path.length = 0
+  · simp [hp, optRes, Rs.fail]
+  · cases hw : walletKey? style path <;> simp [hp, hw, optRes, bind, Except.bind, pure, Except.pure]
+
+theorem C08_fn_get_wrapped_address (style : Style) (allow : List Wallet.Allowable) (path : List Nat) :
+    Node.get_wrapped_address (ext_len := List.length) (ext_get_key_path_len := Style.keyPathLen)
+        (ext_account_privkey_at := fun p => Key.account p) (ext_pubkey_of := fun k => k)
+        (ext_addr_p2shwpkh := fun k => Script.addr .p2shwpkh k) (toNode style allow) path
+      = optRes (walletAddr .p2shwpkh style path) := by
+  unfold Node.get_wrapped_address walletAddr
+  rw [C08_fn_get_wallet_pubkey]
+  by_cases hp : path.length = 0
+  · simp [hp, optRes, Rs.fail]
+  · cases hw : walletKey? style path <;> simp [hp, hw, optRes, bind, Except.bind, pure, Except.pure]
+
+theorem C08_fn_get_taproot_address (style : Style) (allow : List Wallet.Allowable) (path : List Nat) :
+    Node.get_taproot_address (ext_len := List.length) (ext_get_key_path_len := Style.keyPathLen)
+        (ext_account_privkey_at := fun p => Key.account p) (ext_pubkey_of := fun k => k)
+        (ext_addr_p2tr := fun k => Script.addr .p2tr k) (toNode style allow) path
+      = optRes (walletAddr .p2tr style path) := by
+  unfold Node.get_taproot_address walletAddr
+  rw [C08_fn_get_wallet_pubkey]
+  by_cases hp : path.length = 0
+  · simp [hp, optRes, Rs.fail]
+  · cases hw : walletKey? style path <;> simp [hp, hw, optRes, bind, Except.bind, pure, Except.pure]
+
+/-- **every address the node hands out for a wallet path is one `can_spend` recognises at that path** (the three
+    `get_*_address` functions and `can_spend` agree on key and form) -/
+theorem C08_wallet_addresses_spendable (style : Style) (path : List Nat) (k : Kind) (s : Script)
+    (hk : k = .p2wpkh ∨ k = .p2shwpkh ∨ k = .p2tr) (h : walletAddr k style path = some s) :
+    canSpend style path s = some true := by
+  unfold walletAddr at h
+  unfold canSpend
+  by_cases hp : path.length = 0
+  · simp [hp] at h
+  · simp only [hp, if_false] at h ⊢
+    cases hw : walletKey? style path with
+    | none => simp [hw] at h
+    | some key =>
+      simp only [hw, Option.map_some, Option.some.injEq] at h
+      subst h
+      rcases hk with rfl | rfl | rfl <;> simp
+
+/-- `Node::allowlist_contains_payee` is membership of `Allowable::Payee(payee)` in the allowlist -/
+theorem C08_fn_allowlist_contains_payee (style : Style) (allow : List Wallet.Allowable) (n : Nat) :
+    Node.allowlist_contains_payee (toNode style allow) n = allow.contains (.payee n) := by
+  unfold Node.allowlist_contains_payee Gen.FnNodeWallet.Node.get_state
+  simp only [toNode]
+  induction allow with
+  | nil => rfl
+  | cons a rest ih =>
+    cases a <;> simp_all [toGenAllow, List.contains_cons]
+
+example : walletAddr .p2wpkh .native [3] = some (.addr .p2wpkh (.account [3])) ∧ walletAddr .p2wpkh .native [] = none
+    ∧ walletAddr .p2tr .native [1, 2] = none := by decide
+
 end NodeWallet
+
+/-! ## Round 9: `vls-protocol-signer/src/approver.rs` (`Gen/FnApproverC08.lean`) and the `OnchainValidator` wrapper
+
+`Approve::handle_proposed_onchain` (the default method every approver inherits) = `Onchain.flowOnchain`; the approver
+stack's `approve_onchain` = `Onchain.Approver.approveOnchain`.  The `Result<(), ValidationError>` of
+`Node::check_onchain_tx` is read through the declared view `Option<Option<Vec<usize>>>` (normalisation rules
+`hpo_*` of `translate/fn_targets/C0809.b0809.json`): `None` = `Ok(())`, `Some(Some(indices))` =
+`UnknownDestinations(_, indices)`, `Some(None)` = any other kind. -/
+section Approver
+open VlsModel.Gen.FnApproverC08
+
+/-- the declared view of what `Node::check_onchain_tx` returns -/
+def checkView : Res → Rs.M (Option (Option (List Nat)))
+  | .ok _ => .ok none
+  | .unknown l => .ok (some (some l))
+  | .err _ => .ok (some none)
+  | .panic => .error .panic
+
+/-- outcome of the generated `handle_proposed_onchain`, given what the check said (the `Status` only carries the message of
+    the validation error: its tag is the one of the check's result) -/
+def flowOut (res : Res) : Rs.M Bool → FlowRes
+  | .ok true => .signed
+  | .ok false => .declined
+  | .error (.err s) =>
+    if s = "Status::failed_precondition" then (match res with | .err t => .refused t | _ => .panic) else .panic
+  | .error _ => .panic
+
+/-- the answer the approver is asked for: only on `UnknownDestinations`, and exactly about the reported indices -/
+def askedOf (res : Res) (approve : List Nat → Bool) : Bool :=
+  match res with
+  | .unknown l => approve l
+  | _ => false
+
+/-- **`Approve::handle_proposed_onchain` = `Onchain.flowOnchain`**: for every policy, velocity state, time and request, and
+    every approver (a function of the unknown indices it is shown): `Ok(())` ⇒ sign without asking; `UnknownDestinations` ⇒
+    the approver's answer about exactly those indices decides between signing and `Ok(false)`; every other validation
+    error ⇒ `Err(failed_precondition)`; a panic of the check propagates. -/
+theorem C08_fn_handle_proposed_onchain (p : Policy) (vc : Velocity.VC) (now : Nat) (r : Req) (approve : List Nat → Bool) :
+    flowOut (checkOnchain p vc now r).2
+        (Approve.handle_proposed_onchain
+          (ext_Node_check_onchain_tx := fun (_ : Unit) (_ : Unit) _ (_ : List Unit) (_ : List (Option (Unit × List (List Nat)))) (_ : List Unit) =>
+              checkView (checkOnchain p vc now r).2)
+          (ext_approve_onchain := fun (_ : Unit) _ _ idx => approve idx)
+          () () () [] [] [] [])
+      = (flowOnchain p vc now r (askedOf (checkOnchain p vc now r).2 approve)).2 := by
+  unfold Approve.handle_proposed_onchain flowOnchain
+  rcases h : checkOnchain p vc now r with ⟨vc', res⟩
+  cases res with
+  | ok nb => simp [checkView, flowOut, bind, Except.bind, pure, Except.pure]
+  | unknown l =>
+    by_cases ha : approve l = true
+    · simp [checkView, flowOut, askedOf, ha, bind, Except.bind, pure, Except.pure]
+    · have ha' : approve l = false := by simpa using ha
+      simp [checkView, flowOut, askedOf, ha', bind, Except.bind, pure, Except.pure]
+  | err t => simp [checkView, flowOut, Rs.fail, bind, Except.bind]
+  | panic => simp [checkView, flowOut, bind, Except.bind]
+
+/-- the approver is not consulted at all unless the check reported unknown destinations -/
+theorem C08_fn_handle_proposed_onchain_not_asked (p : Policy) (vc : Velocity.VC) (now : Nat) (r : Req)
+    (a₁ a₂ : Unit → Unit → List Unit → List Nat → Bool) (h : ∀ l, (checkOnchain p vc now r).2 ≠ .unknown l) :
+    Approve.handle_proposed_onchain
+        (ext_Node_check_onchain_tx := fun (_ : Unit) (_ : Unit) _ (_ : List Unit) (_ : List (Option (Unit × List (List Nat)))) (_ : List Unit) =>
+            checkView (checkOnchain p vc now r).2)
+        (ext_approve_onchain := a₁) () () () [] [] [] []
+      = Approve.handle_proposed_onchain
+        (ext_Node_check_onchain_tx := fun (_ : Unit) (_ : Unit) _ (_ : List Unit) (_ : List (Option (Unit × List (List Nat)))) (_ : List Unit) =>
+            checkView (checkOnchain p vc now r).2)
+        (ext_approve_onchain := a₂) () () () [] [] [] [] := by
+  unfold Approve.handle_proposed_onchain
+  rcases h' : checkOnchain p vc now r with ⟨vc', res⟩
+  cases res with
+  | unknown l => exact absurd (by rw [h']) (h l)
+  | ok nb => simp [checkView, bind, Except.bind]
+  | err t => simp [checkView, bind, Except.bind]
+  | panic => simp [checkView, bind, Except.bind]
+
+variable {Tx O I P ρ' : Type} [DecidableEq Tx]
+
+theorem C08_fn_positive_approve_onchain (tx : Tx) (po : List O) (idx : List Nat) :
+    PositiveApprover.approve_onchain () tx po idx = (Approver.positive.approveOnchain tx).2 := rfl
+
+theorem C08_fn_warning_positive_approve_onchain (tx : Tx) (po : List O) (idx : List Nat) :
+    WarningPositiveApprover.approve_onchain () tx po idx = (Approver.warningPositive.approveOnchain tx).2 := rfl
+
+theorem C08_fn_negative_approve_onchain (tx : Tx) (po : List O) (idx : List Nat) :
+    NegativeApprover.approve_onchain () tx po idx = (Approver.negative.approveOnchain tx).2 := rfl
+
+/-- the delegate's `approve_onchain` as the model computes it -/
+def delegateE : Approver Tx → Tx → List O → List Nat → Bool := fun d tx _ _ => (d.approveOnchain tx).2
+
+/-- `VelocityApprover::approve_onchain` is the delegate's answer (no velocity control on on-chain requests) -/
+theorem C08_fn_velocity_approve_onchain (d : Approver Tx) (tx : Tx) (po : List O) (idx : List Nat) :
+    VelocityApprover.approve_onchain (ext_delegate_approve_onchain := delegateE) ⟨d⟩ tx po idx
+      = ((Approver.velocity d).approveOnchain tx).2 := rfl
+
+/-- a memoized approval of the generated enum, as the model sees it -/
+def memoOf : Approval I P Tx → Memo Tx
+  | .Invoice _ => .invoice
+  | .KeySend _ _ => .keysend
+  | .Onchain t => .onchain t
+
+/-- what the loop body of `MemoApprover::approve_onchain` does with one memoized approval -/
+def memoStep (r : ρ') (tx : Tx) : Memo Tx → Rs.Flow Unit ρ'
+  | .onchain t => if t == tx then .ret r else .next ()
+  | _ => .next ()
+
+theorem memo_loop (r : ρ') (tx : Tx) (f : Unit → Approval I P Tx → Rs.M (Rs.Flow Unit ρ'))
+    (hf : ∀ a, f () a = .ok (memoStep r tx (memoOf a))) (l : List (Approval I P Tx)) :
+    Rs.loopM l () f = .ok (if memoHit (l.map memoOf) tx then .inr r else .inl ()) := by
+  induction l with
+  | nil => simp [Rs.loopM, memoHit, pure, Except.pure]
+  | cons a rest ih =>
+    cases a with
+    | Invoice i => simpa [Rs.loopM, hf, memoStep, memoHit, memoOf, bind, Except.bind, pure, Except.pure] using ih
+    | KeySend h n => simpa [Rs.loopM, hf, memoStep, memoHit, memoOf, bind, Except.bind, pure, Except.pure] using ih
+    | Onchain t =>
+      by_cases ht : t = tx
+      · simp [Rs.loopM, hf, memoStep, memoHit, memoOf, ht, bind, Except.bind, pure, Except.pure]
+      · simpa [Rs.loopM, hf, memoStep, memoHit, memoOf, ht, bind, Except.bind, pure, Except.pure] using ih
+
+/-- **`MemoApprover::approve_onchain` = `Approver.memo … .approveOnchain`**, for every memo list: a memoized
+    `Approval::Onchain(t)` is consumed only by the *same* transaction (`approved_tx == *tx` on the whole transaction),
+    otherwise the delegate decides; the memo list is empty afterwards in every case. -/
+theorem C08_fn_memo_approve_onchain (d : Approver Tx) (appr : List (Approval I P Tx)) (tx : Tx) (po : List O) (idx : List Nat) :
+    MemoApprover.approve_onchain (ext_delegate_approve_onchain := delegateE) ⟨d, appr⟩ tx po idx
+      = .ok (⟨d, []⟩, ((Approver.memo (appr.map memoOf) d).approveOnchain tx).2) := by
+  unfold MemoApprover.approve_onchain
+  dsimp only
+  rw [memo_loop (⟨d, []⟩, true) tx _ (by intro a; cases a <;> simp only [memoOf, memoStep] <;> first | rfl | (split <;> rfl)) appr]
+  by_cases hh : memoHit (appr.map memoOf) tx = true
+  · simp [Approver.approveOnchain, hh, pure, Except.pure, bind, Except.bind]
+  · have hh' : memoHit (appr.map memoOf) tx = false := by simpa using hh
+    simp [Approver.approveOnchain, hh', delegateE, pure, Except.pure, bind, Except.bind]
+
+/-- non-vacuity: a memo for transaction 7 approves 7 and nothing else under a declining delegate; afterwards it is spent -/
+example : ((Approver.memo [Memo.invoice, .onchain 7] .negative).approveOnchain 7).2 = true
+    ∧ ((Approver.memo [Memo.invoice, .onchain 7] .negative).approveOnchain 8).2 = false
+    ∧ ((((Approver.memo [Memo.onchain 7] .negative).approveOnchain 7).1).approveOnchain 7).2 = false := by decide
+
+end Approver
+
+section OnchainWrap
+open VlsModel.Gen.FnOnchainWrap
+
+/-- `OnchainValidator::validate_onchain_tx` is the inner validator's `validate_onchain_tx` on the same arguments (the
+    external is passed **by name**: a wrapper that forwards to another method of the inner validator no longer
+    elaborates) -/
+theorem C08_fn_onchain_validate_onchain_tx {V W S T D : Type}
+    (F : V → W → List (Option S) → T → List Bool → List Nat → List D → Nat → Rs.M Nat)
+    (v : V) (w : W) (ch : List (Option S)) (tx : T) (sf : List Bool) (vals : List Nat) (op : List D) (weight : Nat) :
+    OnchainValidator.validate_onchain_tx (ext_inner_validate_onchain_tx := F) ⟨v⟩ w ch tx sf vals op weight
+      = F v w ch tx sf vals op weight := rfl
+
+end OnchainWrap
+
+/-! ## Round 9: `Node::check_onchain_tx` (node.rs) = `Onchain.checkOnchain`
+
+`Gen/FnNodeOnchain.lean` is the regenerated body: the per-output channel lookup, the weight lower bound over
+`uniclosekeys` (`prev_outs[idx]`, `SpendType::Invalid`, the witness stack sum, `2 + 1 + 1 + 72 + 1`, all in checked `usize`),
+the values of the previous outputs, the call of `validate_onchain_tx` with that weight, `non_beneficial_sat * 1000` in checked
+`u64`, the fee velocity insert — the **generated** `VelocityControl::insert` of velocity.rs, pulled into the unit with
+`fns_from` and tied to `Velocity.VC.insert` here (`insert_n`, same proof as `C12_fn_insert`) — and the filtered
+`policy-onchain-fee-range` error.  Normalisation rules `coc_*` (translate/fn_targets/C0809.b0809.json). -/
+section CheckOnchain
+open VlsModel.Velocity
+open VlsModel.Gen.FnNodeOnchain (Node TxOut Transaction)
+abbrev GVC := Gen.FnNodeOnchain.VelocityControl
+
+def toVCn (g : GVC) : VC := { start := g.start_sec, bi := g.bucket_interval, buckets := g.buckets, limit := g.limit }
+def ofVC (v : VC) : GVC := { start_sec := v.start, bucket_interval := v.bi, buckets := v.buckets, limit := v.limit }
+
+theorem shift_loop_n (n : Nat) : ∀ s : GVC,
+    Rs.iter (fun s : GVC => { s with buckets := 0 :: s.buckets }) n s
+      = { s with buckets := List.replicate n 0 ++ s.buckets } := by
+  induction n with
+  | zero => intro s; rfl
+  | succ k ih => intro s; simp [Rs.iter, ih, List.replicate_succ', List.append_assoc]
+
+def toResN (r : Rs.M (GVC × Bool)) : Option (VC × Bool) :=
+  match r with
+  | .ok (g, b) => some (toVCn g, b)
+  | .error _ => none
+
+theorem insert_n (g : GVC) (now amt : Nat) :
+    toResN (g.insert now amt) = (toVCn g).insert now amt := by
+  unfold Gen.FnNodeOnchain.VelocityControl.insert VC.insert
+  by_cases h1 : now < g.start_sec
+  · simp [toVCn, h1, Rs.usub, Nat.not_le.mpr h1, toResN, Rs.overflow]
+  · by_cases h2 : g.bucket_interval = 0
+    · simp [toVCn, h1, h2, Rs.usub, Nat.le_of_not_lt h1, Rs.udiv, toResN, Rs.panic]
+    · have hle : g.start_sec ≤ now := Nat.le_of_not_lt h1
+      simp only [toVCn, h1, h2, Rs.usub, hle, Rs.udiv, Rs.urem, Nat.min_le_left, if_true, if_false, false_or,
+        Rs.bind_ok, Rs.pure_eq]
+      rw [Rs.foldlM_ok _ (fun s : GVC => { s with buckets := 0 :: s.buckets })
+        (by intro s x; simp [Rs.vecInsert_zero])]
+      simp only [Rs.range_length, shift_loop_n, Rs.bind_ok, h2, if_false, Nat.mod_le, if_true, Nat.sub_zero]
+      rw [Rs.vecResize_le _ _ _ (Nat.sub_le _ _)]
+      have hB : ∀ k, shift g.buckets k = List.replicate k 0 ++ g.buckets.take (g.buckets.length - k) := fun _ => rfl
+      simp only [hB]
+      generalize List.replicate _ 0 ++ List.take _ g.buckets = B
+      have hv : ∀ (a c : Nat) (b : List Nat) (l : Nat),
+          (Gen.FnNodeOnchain.VelocityControl.velocity { start_sec := a, bucket_interval := c, buckets := b, limit := l })
+            = (VC.velocity { start := a, bi := c, buckets := b, limit := l }) := fun _ _ _ _ => rfl
+      have hs : ∀ a b, Rs.usatAdd Rs.U64_MAX a b = U64.satAdd a b := fun _ _ => rfl
+      simp only [hv, hs]
+      cases B with
+      | nil =>
+        simp only [Rs.index, List.getElem?_nil, Rs.panic, Rs.bind_err]
+        split <;> simp_all [toResN, toVCn]
+      | cons x xs =>
+        simp only [Rs.index, Rs.setIndex, List.getElem?_cons_zero, Rs.bind_ok, Rs.pure_eq, List.length_cons,
+          Nat.zero_lt_succ, if_true, List.set_cons_zero]
+        split <;> simp_all [toResN, toVCn]
+
+/-! the weight lower bound -/
+abbrev UKey := Option (Unit × List (List Nat))
+
+def witLenOf (u : UKey) : Option Nat := u.map (fun ks => (ks.2.map (fun v => 1 + v.length)).sum)
+
+/-- the `Uck` facts of the model computed from the actual arguments (`prev_outs` with the script seen as "spend type
+    valid", `uniclosekeys` with their witness stacks), entry `i` onwards -/
+def ucksFrom (pouts : List (TxOut Bool)) : Nat → List UKey → List Uck
+  | _, [] => []
+  | i, u :: us =>
+    { inRange := decide (i < pouts.length),
+      spendValid := (match pouts[i]? with | some o => o.script_pubkey | none => true),
+      witLen := witLenOf u } :: ucksFrom pouts (i + 1) us
+
+/-- upper bound of everything the loop can add (no `usize` overflow below it) -/
+def ucksTotal : List UKey → Nat
+  | [] => 0
+  | u :: us => 77 + (witLenOf u).getD 33 + ucksTotal us
+
+theorem mapM_ok {α β : Type} (f : α → Rs.M β) (g : α → β) : ∀ (l : List α), (∀ v ∈ l, f v = .ok (g v)) →
+    List.mapM f l = .ok (l.map g) := by
+  intro l
+  induction l with
+  | nil => intro _; rfl
+  | cons v vs ih =>
+    intro h
+    have hv := h v (List.mem_cons_self ..)
+    have hr := ih (fun x hx => h x (List.mem_cons_of_mem _ hx))
+    rw [List.mapM_cons, hv, Rs.bind_ok, hr, Rs.bind_ok]; rfl
+
+theorem sum_mem_le (l : List Nat) : ∀ x ∈ l, x ≤ l.sum := by
+  induction l with
+  | nil => intro x hx; cases hx
+  | cons a as ih =>
+    intro x hx
+    simp only [List.sum_cons]
+    rcases List.mem_cons.mp hx with rfl | h
+    · omega
+    · have := ih x h; omega
+
+theorem mapM_len (stack : List (List Nat)) (h : (stack.map (fun v => 1 + v.length)).sum ≤ Rs.USIZE_MAX) :
+    List.mapM (m := Rs.M) (fun v => do
+        let t_5 ← Rs.uadd Rs.USIZE_MAX 1 v.length
+        pure t_5) stack = .ok (stack.map (fun v => 1 + v.length)) := by
+  apply mapM_ok
+  intro v hv
+  have h1 : 1 + v.length ≤ Rs.USIZE_MAX :=
+    Nat.le_trans (sum_mem_le _ _ (List.mem_map_of_mem (f := fun v : List Nat => 1 + v.length) hv)) h
+  simp [Rs.uadd, h1, bind, Except.bind, pure, Except.pure]
+
+def wlbStep (pouts : List (TxOut Bool)) : Nat → Nat × UKey → Rs.M Nat := fun weight_lower_bound (idx, uck) => do
+        let weight_lower_bound ← do
+            let x_1 ← Rs.index pouts idx
+            if ((fun b : Bool => !b) x_1.script_pubkey) then
+              let t_2 ← Rs.uadd Rs.USIZE_MAX weight_lower_bound 0
+              let weight_lower_bound := t_2
+              pure weight_lower_bound
+            else
+              let wit_len ← do
+                  match uck with
+                  | some (_key, stack) =>
+                      let l_6 ← List.mapM (fun v => do
+                          let t_5 ← Rs.uadd Rs.USIZE_MAX 1 v.length
+                          pure t_5) stack
+                      let s_7 ← Rs.usum Rs.USIZE_MAX l_6
+                      pure s_7
+                  | none =>
+                      pure 33
+              let t_9 ← Rs.uadd Rs.USIZE_MAX 3 1
+              let t_10 ← Rs.uadd Rs.USIZE_MAX t_9 72
+              let t_11 ← Rs.uadd Rs.USIZE_MAX t_10 1
+              let t_12 ← Rs.uadd Rs.USIZE_MAX t_11 wit_len
+              let t_13 ← Rs.uadd Rs.USIZE_MAX weight_lower_bound t_12
+              let weight_lower_bound := t_13
+              pure weight_lower_bound
+        pure weight_lower_bound
+
+def optM {α : Type} : Option α → Rs.M α
+  | some a => .ok a
+  | none => .error .panic
+
+theorem wlb_fold (pouts : List (TxOut Bool)) : ∀ (us : List UKey) (i w : Nat), w + ucksTotal us ≤ Rs.USIZE_MAX →
+    List.foldlM (wlbStep pouts) w ((List.range' i us.length).zip us)
+      = optM (weightLowerBound (ucksFrom pouts i us) w) := by
+  intro us
+  induction us with
+  | nil => intro i w _; rfl
+  | cons u rest ih =>
+    intro i w hw
+    simp only [ucksTotal] at hw
+    simp only [List.length_cons, List.range'_succ, List.zip_cons_cons, List.foldlM_cons, ucksFrom, weightLowerBound,
+      Gen.Onchain.witnessWeightConst, Gen.Onchain.witnessDefaultLen]
+    cases hp : pouts[i]? with
+    | none =>
+      have hlt : ¬ i < pouts.length := by
+        intro h; have := List.getElem?_eq_getElem h; simp [this] at hp
+      simp [wlbStep, Rs.index, hp, hlt, Rs.panic, optM, bind, Except.bind]
+    | some o =>
+      have hlt : i < pouts.length := by
+        rcases Nat.lt_or_ge i pouts.length with h | h
+        · exact h
+        · have := List.getElem?_eq_none_iff.mpr h; simp [this] at hp
+      by_cases hv : o.script_pubkey = true
+      · -- a spendable input: the witness weight is added
+        have h0 : w + (77 + (witLenOf u).getD 33) ≤ Rs.USIZE_MAX := by omega
+        have hstep : wlbStep pouts w (i, u) = .ok (w + 77 + (witLenOf u).getD 33) := by
+          cases u with
+          | none =>
+            have e2 : w + 110 ≤ 18446744073709551615 := by
+              simp only [witLenOf, Option.map_none, Option.getD_none, Rs.USIZE_MAX] at h0; omega
+            simp [wlbStep, Rs.index, hp, hv, Rs.uadd, Rs.USIZE_MAX, witLenOf, e2, bind, Except.bind, pure, Except.pure]
+          | some ks =>
+            obtain ⟨k, stack⟩ := ks
+            simp only [witLenOf, Option.map_some, Option.getD_some] at h0 ⊢
+            have hs : (stack.map (fun v => 1 + v.length)).sum ≤ Rs.USIZE_MAX := by omega
+            generalize hS : (stack.map (fun v => 1 + v.length)).sum = S at h0 hs
+            have c1 : 77 + S ≤ 18446744073709551615 := by simp only [Rs.USIZE_MAX] at h0; omega
+            have c2 : w + (77 + S) ≤ 18446744073709551615 := by simp only [Rs.USIZE_MAX] at h0; omega
+            simp only [wlbStep, Rs.index, hp, hv, Bool.not_true, Bool.false_eq_true, if_false, mapM_len stack (hS ▸ hs),
+              Rs.usum_eq, hS, hs, if_true, Rs.bind_ok, Rs.pure_eq]
+            simp [Rs.uadd, Rs.USIZE_MAX, c1, c2, bind, Except.bind, pure, Except.pure]
+            omega
+        rw [hstep, Rs.bind_ok, ih (i + 1) _ (by omega)]
+        simp [hlt, hv]
+      · have hv' : o.script_pubkey = false := by simpa using hv
+        have hstep : wlbStep pouts w (i, u) = .ok w := by
+          have e : w ≤ Rs.USIZE_MAX := by omega
+          simp [wlbStep, Rs.index, hp, hv', Rs.uadd, e, bind, Except.bind, pure, Except.pure]
+        rw [hstep, Rs.bind_ok, ih (i + 1) _ (by omega)]
+        simp [hlt, hv']
+
+theorem wlb_fold_any (pouts : List (TxOut Bool)) (f : Nat → Nat × UKey → Rs.M Nat) (hf : ∀ w x, f w x = wlbStep pouts w x)
+    (us : List UKey) (i w : Nat) (h : w + ucksTotal us ≤ Rs.USIZE_MAX) :
+    List.foldlM f w ((List.range' i us.length).zip us) = optM (weightLowerBound (ucksFrom pouts i us) w) := by
+  have : f = wlbStep pouts := funext fun w => funext fun x => hf w x
+  subst this
+  exact wlb_fold pouts us i w h
+
+/-- how the outcome of the generated `check_onchain_tx` (its `Ok(())` forgets the non-beneficial value) compares with the
+    model's result; where the model says `panic` the generated function fails (panic, or overflow in a checked build) -/
+def agree : Res → Rs.M Unit → Prop
+  | .ok _, .ok () => True
+  | .unknown l, .error (.err s) => s = "unknown-destinations " ++ toString l
+  | .err t, .error (.err s) => s = t.name
+  | .panic, .error _ => True
+  | _, _ => False
+
+abbrev GNode := Node Unit Unit Nat
+
+/-- the generated `Node::check_onchain_tx` with its externals instantiated (by name): the clock reads `now`, the spend
+    type of a previous output is its flag, `validate_onchain_tx` is the model's `validateOnchain` on the weight it is
+    handed — provided it is handed the segwit flags and the previous outputs' values —, the policy filter is the
+    policy's -/
+def checkOnchainGen (p : Policy) (vc : VC) (now : Nat) (r : Req) (pouts : List (TxOut Bool)) (ucs : List UKey)
+    (tx : Transaction Bool) (find : List (Unit × Unit) → Gen.FnNodeOnchain.OutPoint Unit → Option Unit) : Rs.M GNode :=
+  Node.check_onchain_tx (DerivationPath := Unit) (SecretKey := Unit)
+    (ext_compute_txid := fun _ => ()) (ext_find_channel_with_funding_outpoint := find) (ext_self_validator := ())
+    (ext_tx_weight := fun _ => r.txWeight) (ext_spend_type_invalid := fun b => !b)
+    (ext_Validator_validate_onchain_tx := fun _ _ _ _ sf vals _ w =>
+        if sf = r.segwit ∧ vals = r.inValues then enc (validateOnchain p r w) else .error .panic)
+    (ext_clock_now_secs := fun c => c) (policy_filter_err := filt p)
+    { channels := [], clock := now, state := { fee_velocity_control := ofVC vc } } tx r.segwit pouts ucs []
+
+theorem toVCn_ofVC (vc : VC) : toVCn (ofVC vc) = vc := by cases vc; rfl
+
+theorem C08_fn_check_onchain_tx (p : Policy) (vc : VC) (now : Nat) (r : Req) (pouts : List (TxOut Bool)) (ucs : List UKey)
+    (tx : Transaction Bool) (find : List (Unit × Unit) → Gen.FnNodeOnchain.OutPoint Unit → Option Unit)
+    (hu : r.ucks = ucksFrom pouts 0 ucs) (hv : r.inValues = pouts.map (fun o => o.value))
+    (hfit : r.txWeight + ucksTotal ucs ≤ Rs.USIZE_MAX) :
+    agree (checkOnchain p vc now r).2 ((checkOnchainGen p vc now r pouts ucs tx find).map fun _ => ())
+    ∧ ∀ n, checkOnchainGen p vc now r pouts ucs tx find = .ok n →
+        toVCn n.state.fee_velocity_control = (checkOnchain p vc now r).1 := by
+  unfold checkOnchainGen Node.check_onchain_tx checkOnchain
+  simp only [Rs.enumerate, List.range_eq_range']
+  rw [wlb_fold_any pouts _ (by intro w x; obtain ⟨i, u⟩ := x; cases u <;> rfl) ucs 0 r.txWeight hfit, ← hu]
+  cases hw : weightLowerBound r.ucks r.txWeight with
+  | none => simp [optM, agree, bind, Except.bind, Except.map]
+  | some w =>
+    simp only [optM, Rs.bind_ok, ← hv, and_self, if_true]
+    cases hvo : validateOnchain p r w with
+    | unknown l => simp [enc, agree, bind, Except.bind, Except.map]
+    | err t => simp [enc, agree, bind, Except.bind, Except.map]
+    | panic => simp [enc, agree, bind, Except.bind, Except.map]
+    | ok nb =>
+      simp only [enc, Rs.bind_ok, Rs.umul, U64.checkedMul]
+      by_cases hm : nb * 1000 ≤ U64.MAX
+      · have hm' : nb * 1000 ≤ Rs.U64_MAX := hm
+        have hi := insert_n (ofVC vc) now (nb * 1000)
+        rw [toVCn_ofVC] at hi
+        simp only [hm, hm', if_true, Rs.bind_ok, Rs.pure_eq]
+        cases hg : Gen.FnNodeOnchain.VelocityControl.insert (ofVC vc) now (nb * 1000) with
+        | error e =>
+          rw [hg] at hi
+          simp [toResN] at hi
+          simp [← hi, agree, bind, Except.bind, Except.map]
+        | ok gb =>
+          obtain ⟨g', b⟩ := gb
+          rw [hg] at hi
+          simp only [toResN] at hi
+          cases b with
+          | true => simp [← hi, agree, bind, Except.bind, Except.map, pure, Except.pure]
+          | false =>
+            by_cases hf : p.flt.feeRange = true
+            · simp [← hi, agree, hf, filt, Rs.policyErr, Rs.fail, Tag.name, bind, Except.bind, Except.map, pure, Except.pure]
+            · have hf' : p.flt.feeRange = false := by simpa using hf
+              simp [← hi, agree, hf', filt, Rs.policyErr, Tag.name, bind, Except.bind, Except.map, pure, Except.pure]
+      · have hm' : ¬ nb * 1000 ≤ Rs.U64_MAX := hm
+        simp [hm, hm', Rs.overflow, agree, bind, Except.bind, Except.map]
+
+end CheckOnchain
+
+/-- non-vacuity: a concrete request (two previous outputs, the second one not ours; one unilateral-close key with a
+    two-element witness stack) satisfies the hypotheses of `C08_fn_check_onchain_tx`, and its bound is 400 + 77 + 5 -/
+example : ucksFrom [⟨1000, true⟩, ⟨2000, false⟩] 0 [some ((), [[1, 2], [3]]), none]
+      = [⟨true, true, some 5⟩, ⟨true, false, none⟩]
+    ∧ weightLowerBound (ucksFrom [⟨1000, true⟩, ⟨2000, false⟩] 0 [some ((), [[1, 2], [3]]), none]) 400 = some 482
+    ∧ 400 + ucksTotal [some ((), [[1, 2], [3]]), none] ≤ Rs.USIZE_MAX := by decide
 
 end VlsModel.Props.C08Fn
